@@ -12,6 +12,10 @@ CLAIMED = {
    text="Seeded search over two run shapes. 'alloc': 1-3 real sequenceAllocators sharing the counter document, tasks calling nextSequence / nextSequenceGreaterThan(x below, inside and above the window) / releaseSequence / idle (release monitor on the fake clock) / Stop, interleaved at the counter operation, the allocator mutex and the unused-sequence writes, with batch growth on and off. 'db': 1-2 whole DatabaseContexts on one bucket with document writes of every outcome (success, sync-function rejection, conflict, CAS retry, storage error, unknown-outcome timeout) and principal updates. Faults: error / lost-timeout / CAS mismatch / node crash at storage operations. Oracle from what reached storage (observed at the storage seam): uniqueness of handed-out and carried numbers, nextSequenceGreaterThan(x) > x, per-key strictly increasing sequences in storage order, and conservation at quiescence: {1..counter} = handed out or carried (sequence / unused_sequences) or published as unused, exempting only numbers whose publishing write was itself the injected fault or that belong to an unknown-outcome write. Crash runs assert uniqueness only.",
    note="Trusts rosmar's counter/add semantics; interleavings below storage-op / lock granularity not explored; conservation is checked only after every allocator stopped.",
    technique="deterministic simulation with storage fault injection; ledger oracle over operations observed at the storage seam", design="4/C07"),
+ "C08": dict(level="exploration",
+   text="Seeded search over a real DatabaseContext whose real changeCache receives real feed events (documents with recent/unused sequences, principals, unused-sequence documents and ranges produced by real writes, CAS retries, rejections and allocator releases). The simulator's feed transport decides arrival order across vbuckets, batching, de-duplication and re-delivery, 1-3 feed workers call DocChanged concurrently, pending thresholds start at 1, and the clock is moved around the pending and skipped timeouts. Invariant at every scheduler step (observed through a recording decorator behind the ChannelCache interface and the set of delivered events): the contiguous high-water mark never moves back and only covers sequences that arrived, were declared unused or are (or were) in the skipped set; nothing is forwarded twice. At quiescence: skipped set == missing sequences below the mark, every delivered latest document change forwarded exactly once, nothing left pending, a changes response does not let a client resume beyond the oldest skipped sequence, and a client that only ever resumed from the positions it was given holds the current revision of every document once skipped sequences have arrived or been abandoned.",
+   note="Feed faults model what DCP does (cross-vbucket reordering, de-duplication, re-delivery); per-vbucket order is preserved. Abandonment runs judge fewer clauses (stated in evidence notes).",
+   technique="deterministic simulation with a simulator-owned mutation-feed transport; step invariants + quiescent oracle + resuming-client model", design="4/C08"),
 }
 
 NA = {
